@@ -1,5 +1,15 @@
 package main
 
+import (
+	"fmt"
+	"go/token"
+	"sort"
+	"strings"
+
+	"golang.org/x/tools/go/ssa"
+	"golang.org/x/tools/go/ssa/ssautil"
+)
+
 // StaticResult is the verdict of a dataflow / frame obligation decided on the SSA
 // without a solver.
 type StaticResult struct {
@@ -29,3 +39,131 @@ func runStatics(eng *Engine, id string, specs []StaticSpec) ([]*StaticResult, []
 type staticHandler func(eng *Engine, id string, s StaticSpec) ([]*StaticResult, []string)
 
 var staticKinds = map[string]staticHandler{}
+
+// ---------------------------------------------------------------------------
+// static kind "function-of-inputs": the call trees of args.roots consult nothing but their
+// arguments and state that is never written after package initialisation: no clock, no random
+// source, no environment / file system / process state, no goroutines or channel operations, and
+// every package-level variable read is assigned only by initialisers. Together with the
+// "maprange" obligations (iteration order does not matter) this makes the result a function of
+// the arguments. One obligation per function of the call tree.
+
+var nondetPkgs = map[string]string{
+	"time": "the clock", "math/rand": "a random source", "math/rand/v2": "a random source", "crypto/rand": "a random source",
+	"os": "process / file-system state", "os/exec": "another process", "runtime": "the scheduler", "net": "the network", "io/ioutil": "the file system",
+	"os/user": "the user database", "syscall": "the operating system",
+}
+
+func init() {
+	staticKinds["function-of-inputs"] = func(eng *Engine, id string, s StaticSpec) ([]*StaticResult, []string) {
+		var errs []string
+		fns := map[*ssa.Function]bool{}
+		for _, root := range splitList(s.Args["roots"]) {
+			fn, _, err := eng.LookupFunc(root)
+			if err != nil {
+				errs = append(errs, err.Error())
+				continue
+			}
+			eng.callTree(fn, fns)
+		}
+		allow := map[string]bool{}
+		for _, a := range splitList(s.Args["allow"]) {
+			allow[a] = true
+		}
+		// package-level variables written outside initialisers (anywhere in the repository)
+		written := map[*ssa.Global]string{}
+		for fn := range ssautil.AllFunctions(eng.prog) {
+			if !eng.inRepo(fn) || fn.Blocks == nil || fn.Name() == "init" || strings.HasPrefix(fn.Name(), "init#") {
+				continue
+			}
+			if fn.Synthetic != "" && strings.Contains(fn.Synthetic, "package initializer") {
+				continue
+			}
+			for _, b := range fn.Blocks {
+				for _, in := range b.Instrs {
+					if st, ok := in.(*ssa.Store); ok {
+						if g, ok := rootGlobal(st.Addr); ok {
+							written[g] = fnDisplayName(fn)
+						}
+					}
+					if mu, ok := in.(*ssa.MapUpdate); ok {
+						if g, ok := rootGlobal(mu.Map); ok {
+							written[g] = fnDisplayName(fn)
+						}
+					}
+				}
+			}
+		}
+		var list []*ssa.Function
+		for fn := range fns {
+			list = append(list, fn)
+		}
+		sort.Slice(list, func(i, j int) bool { return list[i].String() < list[j].String() })
+		var out []*StaticResult
+		for _, fn := range list {
+			var bad []string
+			for _, b := range fn.Blocks {
+				for _, in := range b.Instrs {
+					switch v := in.(type) {
+					case *ssa.Go:
+						bad = append(bad, "starts a goroutine")
+					case *ssa.Select, *ssa.Send:
+						bad = append(bad, "channel operation")
+					case *ssa.UnOp:
+						if v.Op == token.ARROW {
+							bad = append(bad, "channel receive")
+						}
+						if v.Op == token.MUL {
+							if g, ok := rootGlobal(v.X); ok {
+								if w, isW := written[g]; isW && !allow[g.Name()] {
+									bad = append(bad, fmt.Sprintf("reads package variable %s, which %s assigns", g.Name(), w))
+								}
+							}
+						}
+					case ssa.CallInstruction:
+						if callee := v.Common().StaticCallee(); callee != nil && callee.Pkg != nil && !eng.inRepo(callee) {
+							if what, ok := nondetPkgs[callee.Pkg.Pkg.Path()]; ok && !allow[callee.Pkg.Pkg.Path()+"."+callee.Name()] {
+								if callee.Pkg.Pkg.Path() == "time" && callee.Name() != "Now" && callee.Name() != "Since" && callee.Name() != "Until" && callee.Name() != "After" && callee.Name() != "Sleep" && callee.Name() != "Tick" && callee.Name() != "NewTimer" && callee.Name() != "NewTicker" {
+									continue // pure functions of package time (Duration arithmetic, formatting)
+								}
+								bad = append(bad, fmt.Sprintf("calls %s.%s (%s)", callee.Pkg.Pkg.Path(), callee.Name(), what))
+							}
+						}
+					}
+				}
+			}
+			r := &StaticResult{Name: fmt.Sprintf("function-of-inputs %s", fnDisplayName(fn)), Kind: "function-of-inputs",
+				Text: "consults only its arguments and state fixed at package initialisation (no clock, random source, environment, goroutine, channel, or package variable assigned at run time)", OK: len(bad) == 0}
+			if len(bad) > 0 {
+				sort.Strings(bad)
+				r.Detail = strings.Join(bad, "; ")
+			}
+			out = append(out, r)
+		}
+		if len(out) == 0 {
+			errs = append(errs, "function-of-inputs: no function selected")
+		}
+		return out, errs
+	}
+}
+
+func rootGlobal(v ssa.Value) (*ssa.Global, bool) {
+	for i := 0; i < 8; i++ {
+		switch x := v.(type) {
+		case *ssa.Global:
+			return x, true
+		case *ssa.FieldAddr:
+			v = x.X
+		case *ssa.IndexAddr:
+			v = x.X
+		case *ssa.UnOp:
+			if x.Op != token.MUL {
+				return nil, false
+			}
+			v = x.X
+		default:
+			return nil, false
+		}
+	}
+	return nil, false
+}
